@@ -176,6 +176,16 @@ func (e *Engine) creationLegal(op *COp) string {
 func (e *Engine) genCreation(c *cursor, op *COp) {
 	reg := e.regTypes()
 	add := subset(c, reg, 4)
+	if e.P.Fat && c.n(3) > 0 {
+		// most of the registered types at once: entities with more components than one layout chunk holds
+		m := c.raw() | c.raw()
+		add = add[:0]
+		for _, t := range reg {
+			if m&(1<<uint(t)) != 0 {
+				add = append(add, t)
+			}
+		}
+	}
 	add = e.limitRelations(0, add)
 	op.Add = add
 	op.Rel = -1
@@ -362,9 +372,9 @@ func (e *Engine) opNewBatch(c *cursor) *Violation {
 		op.Count = 1 + c.n(70)
 	}
 	if e.P.Wide == "big" && c.n(3) == 0 {
-		op.Count = 1 + c.n(e.P.EntityCap/2)
+		op.Count = 1 + c.n(e.P.EntityCap*3/4)
 		if c.n(4) == 0 {
-			op.Count = e.P.CapInc*(1+c.n(3)) + c.n(3) - 1 // on and around multiples of the capacity increment
+			op.Count = e.P.CapInc*(1+c.n(4)) + c.n(3) - 1 // on and around multiples of the capacity increment
 		}
 	}
 	e.genCreation(c, op)
